@@ -159,3 +159,95 @@ func VH_C13_DeepArrayIterators() {
 	}
 	vhReach("deep-iter-done")
 }
+
+// C13 on maps WITH collision groups (inline, external, nested two levels deep,
+// last-level list of fully colliding keys), the group's leaf being the root or
+// a non-root leaf under an index root: every enumeration flavour yields the
+// keys in ascending digest-sequence order (fully colliding keys in insertion
+// order), the mutable iterator's next-key hand-off crosses group boundaries
+// without skipping or repeating, an overwrite of symbolic size at any position
+// is supported, and bulk pop yields the reverse order and releases the
+// external group slab.
+//
+//vh:prop C13 C12 C09
+//vh:param singles 2 3
+//vh:param gsize 3 3
+func VH_C13_GroupIterators() {
+	vhSetThreshold(256)
+	storage := &vLogStorage{BasicSlabStorage: vhNewBasicStorage()}
+	addr := vhAddr(1)
+	b := &vDigesterBuilder{levels: 4}
+	if vhChoose("listmode", 2) == 1 {
+		b.levels = 1
+	}
+	nsingle := vhChoose("nsingle", vhParam("singles", 2)+1)
+	gsize := 2 + vhChoose("gsize", vhParam("gsize", 3)-1)
+	gpos := vhChoose("gpos", nsingle+1)
+	external := vhChoose("external", 2) == 1
+	deep := b.levels > 1 && vhChoose("deep", 2) == 1
+	vhGroupMulti = vhChoose("multi", 2) == 1
+	m, model, _ := vhBuildGroupMapDeep(storage, addr, b, nsingle, gsize, gpos, external, deep)
+	vhGroupMulti = false
+	n := len(model)
+	wantK := make([]uint64, n)
+	wantV := make([]uint64, n)
+	for i, kv := range model {
+		wantK[i], wantV[i] = kv.key.id, kv.val
+	}
+	switch vhChoose("flavour", 7) {
+	case 0:
+		k, v := vhCollectMap("mutable", func(fn MapEntryIterationFunc) error { return m.Iterate(vhCompare, vhHip, fn) })
+		vhSameSeq(k, wantK, "mutable keys")
+		vhSameSeq(v, wantV, "mutable values")
+	case 1:
+		k, v := vhCollectMap("readonly", m.IterateReadOnly)
+		vhSameSeq(k, wantK, "readonly keys")
+		vhSameSeq(v, wantV, "readonly values")
+	case 2:
+		vhSameSeq(vhCollectMapElems("keys", func(fn MapElementIterationFunc) error { return m.IterateKeys(vhCompare, vhHip, fn) }, true), wantK, "keys-only")
+	case 3:
+		vhSameSeq(vhCollectMapElems("values", func(fn MapElementIterationFunc) error { return m.IterateValues(vhCompare, vhHip, fn) }, false), wantV, "values-only")
+	case 4:
+		vhSameSeq(vhCollectMapElems("ro keys", m.IterateReadOnlyKeys, true), wantK, "readonly keys-only")
+		k, _ := vhCollectMap("loaded", m.IterateReadOnlyLoadedValues)
+		vhSameSeq(k, wantK, "loaded values, everything loaded")
+	case 5: // overwrite under the cursor
+		var got []uint64
+		i := 0
+		at := vhChoose("overwriteAt", n)
+		err := m.Iterate(vhCompare, vhHip, func(k, v Value) (bool, error) {
+			kk, _ := k.(vKey)
+			got = append(got, kk.id)
+			if i == at {
+				old, err := m.Set(vhCompare, vhHip, kk, vElem{tag: 4242, size: vhRange32("newvsz", 1, 300)})
+				vhAssert(err == nil, "overwrite during iteration")
+				if err == nil && old != nil {
+					vhDispose(storage, old)
+				}
+			}
+			i++
+			return true, nil
+		})
+		vhAssert(err == nil, "mutating iteration: no error")
+		vhSameSeq(got, wantK, "mutating iteration yields each key once")
+		model[at].val = 4242
+		vhCheckMap(m, addr, model, "after mutating iteration")
+	case 6: // bulk pop
+		var got []uint64
+		err := m.PopIterate(func(ks, vs Storable) {
+			id, _ := vhKeyID(ks, storage)
+			got = append(got, id)
+			vhDispose(storage, ks)
+			vhDispose(storage, vs)
+		})
+		vhAssert(err == nil, "pop: no error")
+		rev := make([]uint64, n)
+		for i := range wantK {
+			rev[n-1-i] = wantK[i]
+		}
+		vhSameSeq(got, rev, "pop order is reverse")
+		vhCheckMap(m, addr, nil, "after pop")
+		vhAssert(vhStorageSlabCount(storage.BasicSlabStorage) == 1, "emptying releases every auxiliary slab (external group, leaves)")
+	}
+	vhReach("group-iter-done")
+}
